@@ -109,16 +109,24 @@ def evaluate(
 
   stdout = io.StringIO()
   with contextlib.redirect_stdout(stdout):
-    if hasattr(code_block.body[-1], 'value'):   # pytype: disable=attribute-error
+    last_stmt = code_block.body[-1]   # pytype: disable=attribute-error
+    if (not isinstance(last_stmt, ast.AugAssign)
+        and getattr(last_stmt, 'value', None) is not None):
       last_expr = code_block.body.pop()  # pytype: disable=attribute-error
-      result_vars = [RESULT_KEY]
 
-      if isinstance(last_expr, ast.Assign):
-        for name_node in last_expr.targets:
-          if isinstance(name_node, ast.Name):
-            result_vars.append(name_node.id)
-
-      last_expr = ast.Expression(last_expr.value)  # pytype: disable=attribute-error
+      # For an assignment, its right-hand side is evaluated as the result, then
+      # the assignment itself is performed with that result, so all kinds of
+      # targets (names, tuples, subscripts, attributes) are bound as in Python.
+      assignment = None
+      if isinstance(last_expr, (ast.Assign, ast.AnnAssign)):
+        assignment = ast.Module(body=[last_expr], type_ignores=[])
+        value = last_expr.value
+        last_expr.value = ast.copy_location(
+            ast.Name(id=RESULT_KEY, ctx=ast.Load()), value
+        )
+        last_expr = ast.Expression(value)
+      else:
+        last_expr = ast.Expression(last_expr.value)  # pytype: disable=attribute-error
 
       try:
         # Execute the lines before the last expression.
@@ -138,11 +146,11 @@ def evaluate(
         result = eval(  # pylint: disable=eval-used
             compile(last_expr, '', mode='eval'), global_vars
         )
+        global_vars[RESULT_KEY] = result
+        if assignment is not None:
+          exec(compile(assignment, '', mode='exec'), global_vars)  # pylint: disable=exec-used
       except Exception as e:
         raise errors.CodeError(code, e) from e
-
-      for result_var in result_vars:
-        global_vars[result_var] = result
     else:
       try:
         exec(compile(code_block, '', mode='exec'), global_vars)  # pylint: disable=exec-used
